@@ -112,7 +112,7 @@ func RunWorker(a WorkerArgs) int {
 	// one collection now, so that the runtime creates its background workers
 	// (which counts as allocation) before any scenario meters allocations
 	runtime.GC()
-	StartWatchdog(filepath.Join(a.OutDir, fmt.Sprintf("w%d.hung", a.K)), HangCPULimit(20*time.Second))
+	StartWatchdog(filepath.Join(a.OutDir, fmt.Sprintf("w%d.hung", a.K)), HangCPULimit(WorkerHangCPU))
 	defer WatchdogIdle()
 	inflight := filepath.Join(a.OutDir, fmt.Sprintf("w%d.inflight", a.K))
 	racing := filepath.Join(a.OutDir, fmt.Sprintf("w%d.racing", a.K))
